@@ -120,6 +120,49 @@ def spec_check(sc, impl_rec, ret_rec, drop_rec, base, refused=False):
     return bad
 
 
+def object_identity_probe(ctx_, work, rng):
+    """C01 (objects, object arrays, objects embedded in structs arrive as the values the caller
+    supplied, in every pairing): the nested-path batch and one random batch through the nine-pairing
+    program; only WHICH object the implementation sees / the caller gets back is judged here (the
+    counts are C05's).  -> (calls judged, failures)"""
+    fails, n = [], 0
+    for b, methods in enumerate([l2obj.gen_methods(rng, 0, with_dup_path=True), l2obj.gen_methods(rng, 6)]):
+        root = os.path.join(work, "objid%d" % b)
+        os.makedirs(root, exist_ok=True)
+        idl = l2obj.render_idl(methods)
+        open(os.path.join(root, "l2.idl"), "w").write(idl)
+        if emit(ctx_["idlc"], root):
+            continue
+        r = build(root, methods, sides=SIDES)
+        if r.get("stage") != "run" or r["rc"] != 0:
+            fails.append({"property": ctx_["prop"], "idl": idl, "what": "the nine-pairing object program does not build or aborts (%s)" % r.get("stage"),
+                          "observed": (r.get("out", "")[-300:] + r.get("err", "")[:1200])})
+            continue
+        runs, ends = parse(r["out"])
+        for caller in SIDES:
+            scs = l2obj.scenarios(methods, NVAL, caller)
+            for impl in SIDES:
+                recs = runs.get((caller, impl)) or []
+                if len(recs) != 3 * len(scs):
+                    fails.append({"property": ctx_["prop"], "idl": idl, "pairing": "%s stub -> %s skeleton" % (caller, impl), "what": "log of the pairing is incomplete"})
+                    continue
+                for i_, sc in enumerate(scs):
+                    im, rt, dr = recs[3 * i_: 3 * i_ + 3]
+                    k, v, ok, ins, po = sc
+                    n += 1
+                    want_h = [o for _, o in po] if ok else [p_ for p_, _ in po]
+                    bad = []
+                    if im["tag"] == "impl" and im["objs"] != ins:
+                        bad.append("the implementation sees objects %s, the caller passed %s" % (im["objs"], ins))
+                    if rt["tag"] == "ret" and rt["objs"] != want_h:
+                        bad.append("the caller receives objects %s, the implementation handed over %s" % (rt["objs"], want_h))
+                    if bad:
+                        fails.append({"property": ctx_["prop"], "idl": idl, "pairing": "%s stub -> %s skeleton" % (caller, impl), "valuation": v,
+                                      "method": "method %s(%s)" % (methods[k][0], ", ".join("%s %s%s %s" % (d, t, sh or "", pn) for d, t, sh, pn in methods[k][1])),
+                                      "what": "; ".join(bad)})
+    return n, fails[:10]
+
+
 def zl(l):
     return "[" + "; ".join("(%d)%%Z" % x for x in l) + "]"
 
